@@ -2,6 +2,7 @@
 From MD Require Import Lib.Base Model.Node Model.Codec.Base64 Model.Codec.Hex Model.Dec.ReLib Model.Dec.B64Hex.
 From MD Require Import Proofs.Base64Proofs Proofs.HexProofs Proofs.B64HexProofs.
 From MD Require Generated.Consts.
+From MD Require Import Regex.Syntax Generated.Regexes Proofs.Shapes1 Proofs.Shapes2.
 
 (* RFC 4648: decode (encode p) = p for every payload (all lengths mod 3) *)
 Theorem C13_b64_roundtrip : forall p : bytes, wf_bytes p -> b64_decode_strict (b64_encode p) = Some p.
@@ -47,7 +48,7 @@ Proof. exact find_FromBase64String_post_spec. Qed.
 Print Assumptions C13_FromBase64String.
 
 (* bare base64: HTML escapes, CR, LF and the marker are removed before decoding *)
-Theorem C13_clean : forall t s : bytes, b64_clean t = Ok s <-> (exists hs : list Backtrack.mtch, fi Regexes.RE_base64_HTML_ESCAPE_RE Regexes.NG_base64_HTML_ESCAPE_RE t = Ok hs /\ s = XmlChr.replace (XmlChr.replace (XmlChr.replace (splice_const t [] 0 hs) [10%N] []) [13%N] []) B64_MARKER []).
+Theorem C13_clean : forall t s : bytes, b64_clean t = Ok s <-> (exists hs : list Backtrack.mtch, fi RE_base64_HTML_ESCAPE_RE NG_base64_HTML_ESCAPE_RE t = Ok hs /\ s = XmlChr.replace (XmlChr.replace (XmlChr.replace (splice_const t [] 0 hs) [10%N] []) [13%N] []) B64_MARKER []).
 Proof. exact b64_clean_spec. Qed.
 Print Assumptions C13_clean.
 
@@ -102,6 +103,46 @@ Print Assumptions C13_xorkey.
 Theorem C13_ps_bytes : forall (t : bytes) (vals : list Z), Forall2 ps_tok (XmlChr.split_on 44 t) vals -> ps_binary t = Ok (if forallb (fun v : Z => v <=? 255) vals then Some (map Z.to_N vals) else None).
 Proof. exact ps_binary_spec. Qed.
 Print Assumptions C13_ps_bytes.
+
+(* END TO END: whatever HEX_RE (regenerated from the source) matches is an even number (>= 20) of hex digits *)
+Theorem C13_hex_regex_shape : forall w : list N, Lang RE_hex_HEX_RE w -> hex_shape w.
+Proof. exact hex_lang_shape. Qed.
+Print Assumptions C13_hex_regex_shape.
+
+(* find_hex on EVERY input: never raises; every node's value is the bytes spelled by the digits it covers *)
+Theorem C13_find_hex_total : forall data : bytes, find_hex data = Hang \/ (exists nodes : list node, find_hex data = Ok nodes /\ Forall (hex_node_ok data) nodes).
+Proof. exact find_hex_total. Qed.
+Print Assumptions C13_find_hex_total.
+
+Theorem C13_find_FromHexString_total : forall data : bytes, find_FromHexString data = Hang \/ (exists (key : option Z) (nodes : list node), get_xorkey data = Ok key /\ key_ok key /\ find_FromHexString data = Ok nodes /\ Forall (fromhex_node_ok data key) nodes).
+Proof. exact find_FromHexString_total. Qed.
+Print Assumptions C13_find_FromHexString_total.
+
+(* call forms on EVERY input: value = a2b_base64 of the argument, = the RFC 4648 decoding when the argument is canonical *)
+Theorem C13_find_atob_total : forall data : bytes, find_atob data = Hang \/ (exists nodes : list node, find_atob data = Ok nodes /\ Forall (b64_node_ok (s2b "javascript.string") data) nodes).
+Proof. exact find_atob_total. Qed.
+Print Assumptions C13_find_atob_total.
+
+Theorem C13_find_Base64Decode_total : forall data : bytes, find_Base64Decode data = Hang \/ (exists nodes : list node, find_Base64Decode data = Ok nodes /\ Forall (b64_node_ok (s2b "vba.string") data) nodes).
+Proof. exact find_Base64Decode_total. Qed.
+Print Assumptions C13_find_Base64Decode_total.
+
+Theorem C13_find_FromBase64String_total : forall data : bytes, find_FromBase64String data = Hang \/ (exists (key : option Z) (nodes : list node), get_xorkey data = Ok key /\ key_ok key /\ find_FromBase64String data = Ok nodes /\ Forall (fromb64_node_ok data key) nodes).
+Proof. exact find_FromBase64String_total. Qed.
+Print Assumptions C13_find_FromBase64String_total.
+
+(* bare base64 on EVERY input: the cleaned text passed the acceptance rules and the value is its decoding *)
+Theorem C13_find_base64_total : forall data : bytes, find_base64 data = Hang \/ (exists nodes : list node, find_base64 data = Ok nodes /\ Forall (base64_node_ok data) nodes).
+Proof. exact find_base64_total. Qed.
+Print Assumptions C13_find_base64_total.
+
+Theorem C13_xorkey_range : forall (data : bytes) (k : option Z) (key : Z), get_xorkey data = Ok k -> k = Some key -> 0 <= key <= 999.
+Proof. exact get_xorkey_range. Qed.
+Print Assumptions C13_xorkey_range.
+
+Theorem C13_ps_bytes_total : forall (xortool : bytes -> list bytes) (data : bytes), find_powershell_bytes xortool data = Hang \/ (exists nodes : list node, find_powershell_bytes xortool data = Ok nodes /\ Forall (psb_node_ok xortool data) nodes).
+Proof. exact find_powershell_bytes_total. Qed.
+Print Assumptions C13_ps_bytes_total.
 
 Theorem C13_min_chars_tied : MIN_B64_CHARS = Generated.Consts.G_MIN_B64_CHARS.
 Proof. reflexivity. Qed.
